@@ -93,13 +93,16 @@ def cli_part(chk, tuc):
         return p.returncode, out
 
     for name, args in modes.items():
-        for data in (small, big):
+        # inputs without a final EOL: the tail after the last newline sits in stdout's LineWriter until the last flush
+        for data in (small, big, small[:-1], big + b"LAST-LINE-WITHOUT-NEWLINE"):
             rc, full = run(args, data)
             chk.evaluations += 1
             if rc != 0:
                 chk.report_oracle("CLI: fault-free run failed", {"argv": args, "exit": rc})
                 continue
-            ks = sorted(set(k for k in (0, 1, len(full) // 2, len(full) - 1, 65535, 65536, 65537, 131072) if 0 <= k < len(full)))
+            tail = len(full) - (full.rfind(b"\n") + 1)          # bytes after the last newline of the output
+            ks = sorted(set(k for k in (0, 1, len(full) // 2, len(full) - 1, len(full) - tail, len(full) - tail // 2 - 1, 65535, 65536, 65537, 131072)
+                            if 0 <= k < len(full)))
             for k in ks:
                 rc, got = run(args, data, limit=k)
                 chk.evaluations += 1
